@@ -642,6 +642,23 @@ def write_evidence(ctx: Ctx, nviol: int, known_hits: dict):
         "axioms reported by Print Assumptions in this run: " + (", ".join(axioms) if axioms else
                                                                "none (all theorems closed under the global context)"),
     ] + list(ctx.trusted)
+    # keep the schema-typed keys well typed whatever a property module stored there
+    if not isinstance(cov.get("exhaustive", False), bool):
+        cov["exhaustive_note"] = str(cov["exhaustive"])
+        cov["exhaustive"] = False
+    for k in ("evaluations", "distinct_nontrivial", "states", "transitions", "traces_validated_against_impl",
+              "programs", "disagreements_checked"):
+        if k in cov and not isinstance(cov[k], int):
+            try:
+                cov[k] = int(cov[k])
+            except (TypeError, ValueError):
+                cov[k + "_note"] = str(cov.pop(k))
+    if not isinstance(cov.get("samples"), list):
+        cov["samples"] = [cov.get("samples")]
+    if "rule" in cov and not isinstance(cov["rule"], str):
+        cov["rule"] = str(cov["rule"])
+    if "explanation" in cov and not isinstance(cov["explanation"], str):
+        cov["explanation"] = str(cov["explanation"])
     cov["known_findings_hit"] = {k: len(v[1]) for k, v in known_hits.items()}
     cov["broken"] = [dict(kind=b.kind, name=b.name) for b in ctx.broken]
     cov["coq_seconds"] = round(ctx.coq_secs, 1)
